@@ -73,10 +73,16 @@ func init() {
 			sel = append(sel, rest[i])
 		}
 		var items []*corp.Item
-		for _, g := range sel {
+		for i, g := range sel {
 			it := corp.NewItem("Err", gram.WithRecActions(g))
 			it.RtImp = true
 			items = append(items, it)
+			// the compressed tables carry the recovery flags too
+			if i < nseeds || tier == "thorough" {
+				z := corp.NewItem("Err-zip", gram.WithRecActions(g), "-zip")
+				z.RtImp = true
+				items = append(items, z)
+			}
 		}
 		c, err := corp.Build(t, sw.pool, "c07b", items)
 		defer c.Close()
@@ -123,10 +129,10 @@ func init() {
 			}
 		})
 		if err != nil {
-			ev.Inconsistent("%v", err)
+			driverFailed(r, "C07", "recover", c, err)
 		}
 		r.Set("sequence_bound", n)
-		r.Set("rule", "compiled unmodified parsers of conflict-free grammars with error alternatives (hand-built seeds + S1 grammars with one alternative replaced by each error form): every token sequence up to the bound through the real Parse under recover() and a scan budget, compared with a literal transcription of the recovery rule (verdict, action calls with the error attribute's token and discarded attributes by identity, result, tokens consumed); inertness against the twin grammar without error alternatives; distinct = (grammar, recovery class, action-call sequence)")
+		r.Set("rule", "compiled unmodified parsers (plain, and -zip for the seeds) of conflict-free grammars with error alternatives (hand-built seeds + S1 grammars with one alternative replaced by each error form): every token sequence up to the bound through the real Parse under recover() and a scan budget, compared with a literal transcription of the recovery rule (verdict, action calls with the error attribute's token and discarded attributes by identity, result, tokens consumed); inertness against the twin grammar without error alternatives; distinct = (grammar, recovery class, action-call sequence)")
 		return r.Finish(nil)
 	}
 }
